@@ -168,6 +168,9 @@ func (r *results) finish() int {
 			if !confirmed {
 				unconfirmed = append(unconfirmed, desc)
 				fmt.Printf("UNCONFIRMED property=%s %s replay=%s\n", r.prop, desc, p.path)
+				// a candidate the native build does not reproduce means the engine or a stub misrepresents
+				// the code on that path: no verdict for it, never a silent pass
+				inconclusive = append(inconclusive, "unconfirmed candidate (engine/stub and native build disagree): "+desc)
 				continue
 			}
 			if kf := known.match(r.prop, p.v); kf != nil {
